@@ -10,14 +10,14 @@ package set
 // specLoHas: bit n of the 64-bit word (false for n >= 64).
 func specLoHas(w uint64, n uint64) bool { return n < 64 && (w>>n)&1 == 1 }
 
-//@ props C26
+// @ props C26
 func contract_int64s_Has(bs *int64s, n uint64) (r bool) {
 	requires(bs != nil)
 	ensures(r == specLoHas(uint64(*bs), n))
 	return
 }
 
-//@ props C26
+// @ props C26
 func contract_int64s_Set(bs *int64s, n uint64) {
 	requires(bs != nil && n < 64)
 	modifiesPtr(bs)
@@ -26,7 +26,7 @@ func contract_int64s_Set(bs *int64s, n uint64) {
 	}))
 }
 
-//@ props C26
+// @ props C26
 func contract_int64s_Clear(bs *int64s, n uint64) {
 	requires(bs != nil && n < 64)
 	modifiesPtr(bs)
@@ -38,7 +38,7 @@ func contract_int64s_Clear(bs *int64s, n uint64) {
 // specBitCount: number of members of the word, by definition (sum of the bits).
 func specBitCount(w uint64) int { return specBitCountFrom(w, 0) }
 
-//@ unfold 64
+// @ unfold 64
 func specBitCountFrom(w uint64, i int) int {
 	if i >= 64 {
 		return 0
@@ -46,7 +46,7 @@ func specBitCountFrom(w uint64, i int) int {
 	return int((w>>uint(i))&1) + specBitCountFrom(w, i+1)
 }
 
-//@ props C26
+// @ props C26
 func contract_int64s_Len(bs *int64s) (n int) {
 	requires(bs != nil)
 	ensures(n == specBitCount(uint64(*bs)))
@@ -62,16 +62,16 @@ func specHas(bs *Ints, n uint64) bool {
 	return ok
 }
 
-//@ props C26
-//@ inline Has
+// @ props C26
+// @ inline Has
 func contract_Ints_Has(bs *Ints, n uint64) (r bool) {
 	requires(bs != nil)
 	ensures(r == specHas(bs, n))
 	return
 }
 
-//@ props C26
-//@ inline Set
+// @ props C26
+// @ inline Set
 func contract_Ints_Set(bs *Ints, n uint64) {
 	requires(bs != nil)
 	modifiesPtr(bs)
@@ -82,8 +82,8 @@ func contract_Ints_Set(bs *Ints, n uint64) {
 
 // lemma_SetFrame: Set(n) adds n and leaves the membership of every other m unchanged.
 //
-//@ props C26
-//@ inline Set
+// @ props C26
+// @ inline Set
 func lemma_SetFrame(bs *Ints, n uint64, m uint64) {
 	requires(bs != nil && m != n)
 	before := specHas(bs, m)
@@ -92,8 +92,8 @@ func lemma_SetFrame(bs *Ints, n uint64, m uint64) {
 	ensures(specHas(bs, m) == before)
 }
 
-//@ props C26
-//@ inline Clear
+// @ props C26
+// @ inline Clear
 func lemma_ClearFrame(bs *Ints, n uint64, m uint64) {
 	requires(bs != nil && m != n)
 	before := specHas(bs, m)
